@@ -543,6 +543,24 @@ def labels_obligation(prop, floor=0):
                 ctx.finding(e.fn, e.node, "the result of a floating-point computation is stored into an array created with zeros_like / empty_like of the "
                             "caller's own array: the array inherits the caller's element type, so integer input (axis-aligned normals, voxel "
                             "positions) truncates every stored value", e.node, m)
+        # a batch (n, k) re-read as (k, n) when its row count happens to equal k
+        for it in its:
+            for e in it.events:
+                if e.kind != "typing" or e.name != "ambiguous-transpose":
+                    continue
+                k = (e.fn, id(e.node), "ambiguous-transpose")
+                if k in seen:
+                    continue
+                seen.add(k)
+                try:
+                    m, _ = ctx.prog.func(e.fn)
+                except Exception:  # noqa
+                    m = None
+                ctx.count(1, None)
+                w_ = e.extra.get("width")
+                ctx.finding(e.fn, e.node, f"an array with one row per item and {w_} columns is transposed when its number of rows equals {w_}: for exactly "
+                            f"{w_} items (a list of {w_} particles / images / tilts) the two layouts cannot be told apart, and a regular input of that length is "
+                            "read with rows and columns exchanged", e.node, m)
         # a number of the data used as a truth value
         for it in its:
             for e in it.events:
